@@ -29,6 +29,25 @@ def run_op(rep, h, nproc=None, bounds=None, replay_fn=None):
             rep.known_hits[fid]["count"] += v - 1
         else:
             rep.witnesses[k] = rep.witnesses.get(k, 0) + v
+    # routine validation of the stand-ins against the implementation: a passing sample of
+    # this exploration (concrete input + predicted result) is pushed through the genuine
+    # stack; the same assertion must hold there (budget: a few samples per check)
+    if not h.viol and getattr(rep, "sample_budget", 0) > 0 and h.samples and not getattr(h, "no_sample_validation", False) and not known_preds and (replay_fn or hasattr(h, "replay") or isinstance(h, ops.OpHarness)):
+        sm = h.samples[0]
+        cand = dict(res=sm.get("result", sm.get("answers")), vars=sm["tables"], hung=[], giveups=[], clock=None)
+        try:
+            fn0 = replay_fn or (ops.judge_replay if isinstance(h, ops.OpHarness) and not hasattr(h, "replay") else (lambda hh, c: hh.replay(c)))
+            status, rec = fn0(h, cand)
+        except Exception as e:  # noqa: BLE001
+            status, rec = "error", {"observed": repr(e)[:200]}
+        rep.sample_budget -= 1
+        if status == "not_reproduced":
+            rep.validated += 1
+        elif status == "confirmed":
+            path = concretise.save_replay(rep.pid, rec)
+            rep.violation("%s: a sampled input violates the property on the real stack although the symbolic run predicted otherwise: %s" % (h.label, rec.get("observed")), path)
+        else:
+            rep.extra.setdefault("sample_validation_errors", []).append(dict(harness=h.label, observed=str(rec.get("observed"))[:300]))
     rep.note("%s: paths=%d decisions=%d viol_candidates=%d wall=%.1fs %s" % (
         h.label, stats["paths"], stats["decisions"], len(h.viol), stats["wall"], dict(h.counts)))
     if isinstance(h, ops.OpHarness) and h.counts.get("ans_true", 0) + h.counts.get("ans_false", 0) > 0 and h.expected() is not None \
